@@ -85,8 +85,20 @@ def main():
                     entry['demo_exit'] = None
                     entry['demo_violated'] = False
                     entry['demo_line'] = 'demonstration script did not finish within 240 s on this machine (it uses real-time waits)'
+                # the demonstration must pass on the UNCHANGED tree (the current /repo working tree)
+                try:
+                    dtxt0 = open(demo).read().replace(f'/tmp/wt/{pid}', REPO)
+                    d0copy = os.path.join(tmp, f'demo_{n}_unchanged.py')
+                    open(d0copy, 'w').write(dtxt0)
+                    d0 = sh(['/venv/bin/python', d0copy], env=dict(os.environ, PYTHONPATH=os.path.join(REPO, 'src')), timeout=240, cwd=REPO)
+                    entry['demo_unchanged_holds'] = d0.returncode == 0 and 'VIOLATED' not in d0.stdout
+                except subprocess.TimeoutExpired:
+                    entry['demo_unchanged_holds'] = None
                 if suite:
-                    s = sh(['/venv/bin/python', '-m', 'pytest', '-q', '-p', 'no:cacheprovider', '--timeout=900', '-x', 'tests'], env=env, cwd=root, timeout=3000)
+                    import fcntl                      # the e2e tests bind fixed ports: one suite at a time on this machine
+                    with open('/tmp/aioslsk_suite.lock', 'w') as lk:
+                        fcntl.flock(lk, fcntl.LOCK_EX)
+                        s = sh(['/venv/bin/python', '-m', 'pytest', '-q', '-p', 'no:cacheprovider', '--timeout=900', '-x', 'tests'], env=env, cwd=root, timeout=3000)
                     entry['suite'] = s.stdout.strip().splitlines()[-1][:120] if s.stdout.strip() else s.stderr[-120:]
                 c = sh([os.path.join(VERIF, 'check'), pid, '--src-root', os.path.join(root, 'src'), '--no-evidence'], timeout=7200, cwd=VERIF)
                 entry['check_exit'] = c.returncode
@@ -98,7 +110,7 @@ def main():
                 entry['seconds'] = round(time.time() - t0, 1)
                 entry['caught'] = c.returncode == 1 and bool(viol)
                 results[key] = entry
-                print(f'{key}: demo={"VIOLATED" if entry["demo_violated"] else "??"} check_exit={c.returncode} '
+                print(f'{key}: unchanged={"HOLDS" if entry.get("demo_unchanged_holds") else "??"} suite={entry.get("suite", "-")[:22]!r} demo={"VIOLATED" if entry["demo_violated"] else "??"} check_exit={c.returncode} '
                       f'{"CAUGHT" if entry["caught"] else "MISSED"} {entry["obligations"][:3]} ({entry["seconds"]}s)', flush=True)
             finally:
                 if in_repo:
